@@ -107,6 +107,7 @@ def check(seed, n):
         reqs.append("ifdef " + proto.w_str(text))
         reals.append(proto.w_str(real))
         cases.append(text)
+        proto.sample("ifdef", {"text": text[:300]})
         if kind == "tree":
             # Spec oracle: the kept text must be what a C preprocessor keeps (compared token-wise: whitespace-insensitive)
             exp = keep(tree)
@@ -120,3 +121,38 @@ def check(seed, n):
     dis = [{"stream": "ifdef", "case": {"text": c}, "model": a[:500], "impl": r[:500]} for c, a, r in zip(cases, ans, reals) if a != r]
     return {"evaluations": len(cases), "violations": violations, "disagreements": dis,
             "distinct": len({c for c in cases if "#" in c})}
+
+
+def cpp_reference(text):
+    """A line-based C preprocessor with only HERA_PY defined (#ifdef / #ifndef / #else / #endif on lines of their own)."""
+    import re
+    out, stack = [], []          # stack of (enclosing kept, this branch kept, seen else)
+    for line in text.split("\n"):
+        t = line.strip()
+        m = re.match(r"^#(ifdef|ifndef)\s+([A-Za-z_][A-Za-z0-9_]*)$", t)
+        kept = all(s[1] for s in stack)
+        if m:
+            cond = (m.group(2) == "HERA_PY") != (m.group(1) == "ifndef")
+            stack.append([kept, kept and cond, False])
+        elif t == "#else" and stack:
+            stack[-1][1] = stack[-1][0] and not stack[-1][1] and not stack[-1][2]
+            stack[-1][2] = True
+        elif t == "#endif" and stack:
+            stack.pop()
+        elif kept:
+            out.append(line)
+    return "\n".join(out)
+
+
+def replay_case(case):
+    import hera.parser as P
+    text = case["text"]
+    try:
+        real = P.evaluate_ifdefs(text)
+    except Exception as e:  # noqa
+        return "evaluate_ifdefs raised " + type(e).__name__
+    exp = cpp_reference(text)
+    if real.split() != exp.split():
+        return "conditional compilation keeps {!r}..., a C preprocessor with only HERA_PY defined keeps {!r}...".format(
+            " ".join(real.split())[:120], " ".join(exp.split())[:120])
+    return None
